@@ -29,6 +29,10 @@ pub(crate) fn spawn(
       rx.try_recv_batch_mut(&mut drain_buf, rcvbatch_count - 1);
 
       for batch in drain_buf.drain(..) {
+        if accumulator.len() + batch.len() > FrameBatch::MAX_FRAMES {
+          tracing::error!(reader_task_id, uri = %endpoint_uri, "Inproc peer sent a multipart message with more frames than supported; closing.");
+          break 'outer;
+        }
         accumulator.extend(batch);
         if accumulator.last_mut().map(|m| !m.is_more()).unwrap_or(false) {
           out.push_back(std::mem::replace(&mut accumulator, FrameBatch::new()));
